@@ -123,6 +123,14 @@ def run(res):
     res.notes["named_entity_cases"] = n_ent
     r = bulk_compare(["lit", res.tier, res.seed], "C12")
     found_input = f_ent > 0
+    # the entity scanner of the parser (Model/TextDecode.v) on static attribute values
+    rs = bulk_compare(["entscan", res.tier, res.seed], "C12")
+    res.notes["entity_scanner_cases"] = rs["n"]
+    for (c, i, m) in rs["mismatches"][:4]:
+        f = c.split("\t")
+        res.violation("static text %r is decoded by the parser as %r, the Coq model of the entity scanner says %r" % (
+            dec(f[-1]), dec(i), dec(m) if not m.startswith(("ERR", "EXC")) else m), {"text": dec(f[-1]), "impl": dec(i)})
+        found_input = True
     for (c, i, m) in r["mismatches"][:5]:
         f = c.split("\t")
         res.violation("%s: implementation and Coq model disagree on %r: impl=%r model=%r" % (
@@ -167,7 +175,7 @@ def run(res):
                       {"contexts": sorted(ctx_seen)}, no_input=True)
     if not ok:
         res.violation(what, {"obligation": "Properties/C12.v"}, no_input=not found_input)
-    res.cov["evaluations"] = r["n"] + n_ctx
+    res.cov["evaluations"] = rs["n"] + r["n"] + n_ctx
     res.cov["distinct_nontrivial"] = r["kinds"].get("lit_str", 0)
     res.cov["exhaustive"] = True
     res.cov["rule"] = ("gen_lit_str on every Unicode scalar value alone and followed by each critical successor (exhaustive; %s), "
